@@ -51,10 +51,13 @@ Judge(e) == UNION { JudgeOne(e, Lims(e)[i]) : i \in DOMAIN Lims(e) }
 (* nothing is refused (checked only in the obvious case: both limits off).                        *)
 Kind(e) == CASE e.in.cfg.store = "bucket" -> "bucket" [] e.in.cfg.store = "tsdbl" -> "tsdb" [] e.in.cfg.store = "recvl" -> "recv"
 NoOpt == [skip |-> FALSE, samples |-> FALSE, pmatch |-> TRUE]
-Drift(e) ==
-    \/ (e.unl.kind = "ok" /\
-        e.unl.ns # Cardinality(AlgoSeriesW(Kind(e), WorldOf(e), ReqOf(e), NoOpt).out))
-    \/ (e.sl = 0 /\ e.cl = 0 /\ e.unl.kind = "ok" /\ \E i \in DOMAIN Lims(e) : Lims(e)[i].kind # "ok")
+(* worlds with really downsampled blocks: the downsampler re-cuts chunks (one aggregate chunk may span
+   several slots), which the slot model of the algorithm level does not describe: no prediction *)
+HasDownsampled(e) == \E i \in DOMAIN e.in.world.blocks : e.in.world.blocks[i].res > 0
+Drift(e) == ~HasDownsampled(e) /\
+    ( (e.unl.kind = "ok" /\
+         e.unl.ns # Cardinality(AlgoSeriesW(Kind(e), WorldOf(e), ReqOf(e), NoOpt).out))
+      \/ (e.sl = 0 /\ e.cl = 0 /\ e.unl.kind = "ok" /\ \E i \in DOMAIN Lims(e) : Lims(e)[i].kind # "ok") )
 
 VARIABLE l
 TraceInit == l = 1
